@@ -660,6 +660,64 @@ def call_local_state(rep, M, rid, fq, allowed_config=()):
         rep.ok(rid, f"{fq.split('.')[-1]}: all {nread} reads of instance state are preceded by a write in the same call")
 
 
+# ----------------------------------------------------------------------------- R01.14 non-periodic containment
+def r01_14(rep, M, rid):
+    """atoms outside the cell along a non-periodic direction must trigger the cell enlargement + centring
+    (wrap() never moves non-periodic coordinates, and everything downstream assumes scaled coordinates in [0, 1])"""
+    from ..constfold import Folder
+    fn = M.func(GC)
+    fl = Flow(fn)
+    tests = []
+    for t in ast.walk(fn):
+        if isinstance(t, ast.If) and any(isinstance(s2, ast.Assign) and isinstance(s2.value, ast.Constant) and s2.value.value is True for s2 in t.body) \
+                and any(isinstance(s2, ast.AugAssign) and isinstance(s2.op, ast.Mult) for s2 in t.body):
+            tests.append(t)
+    if len(tests) != 1:
+        raise AnalysisError(f"get_clusters: the decision to enlarge the cell along a non-periodic axis was not recognised ({len(tests)} candidates)")
+    t = tests[0]
+    at = fl.node_of(t)
+    conds = fl.cfg.branch_conditions(at)
+    nonper = any(isinstance(c, ast.If) and pol is True and isinstance(c.test, ast.UnaryOp) and "pbc" in norm(c.test) for c, pol in conds)
+    names = sorted({x.id for x in ast.walk(t.test) if isinstance(x, ast.Name)})
+    # which name is the maximum / minimum of the scaled coordinate
+    role = {}
+    for nm in names:
+        defs = [d for d in ast.walk(fn) if isinstance(d, ast.Assign) and norm(d.targets[0]) == nm]
+        if len(defs) == 1 and isinstance(defs[0].value, ast.Call) and isinstance(defs[0].value.func, ast.Attribute) and defs[0].value.func.attr in ("max", "min"):
+            role[nm] = defs[0].value.func.attr
+    if set(role.values()) != {"max", "min"} or len(role) != len(names):
+        raise AnalysisError(f"get_clusters: enlargement test `{norm(t.test)}` is not a predicate over the min/max scaled coordinate")
+    mx = next(k for k, v in role.items() if v == "max")
+    mn = next(k for k, v in role.items() if v == "min")
+    F = Folder(what="cell enlargement test")
+    grid = [-1.5, -1.2, -0.5, -0.01, 0.0, 0.3, 0.7, 1.0, 1.01, 1.2, 1.5, 2.5]
+    witness = None
+    for lo in grid:
+        for hi in grid:
+            if lo > hi:
+                continue
+            outside = hi > 1 or lo < 0
+            if outside and not F.ev(t.test, {mx: hi, mn: lo}):
+                witness = (lo, hi)
+                break
+        if witness:
+            break
+    if witness:
+        rep.violation(rid, f"get_clusters: enlargement test `{norm(t.test)}`", f"with scaled coordinates spanning [{witness[0]}, {witness[1]}] along a "
+                      "non-periodic axis (atoms outside the cell) the test is false: the cell is not enlarged and re-centred, the atoms stay outside "
+                      "the cell and the scaled-position logic downstream fails (IndexError/AxisError instead of clusters)", M.where(GC, t))
+    elif not nonper:
+        rep.violation(rid, "get_clusters: enlargement test scope", "the enlargement is not restricted to non-periodic axes", M.where(GC, t))
+    else:
+        rep.ok(rid, f"get_clusters: `{norm(t.test)}` holds whenever an atom lies outside [0, 1] along a non-periodic axis ({len(grid)}x{len(grid)} sign patterns)")
+    cen = [c for c in ast.walk(fn) if isinstance(c, ast.Call) and isinstance(c.func, ast.Attribute) and c.func.attr == "center"]
+    setc = [c for c in ast.walk(fn) if isinstance(c, ast.Call) and isinstance(c.func, ast.Attribute) and c.func.attr == "set_cell" and c.args and norm(c.args[0]) == "new_cell"]
+    if cen and setc:
+        rep.ok(rid, "get_clusters: the enlarged cell is set and the atoms are centred in it")
+    else:
+        rep.violation(rid, "get_clusters: enlargement effect", "the enlarged cell is not applied / atoms are not centred", M.where(GC, t))
+
+
 # ----------------------------------------------------------------------------- R01.11 localize: all but one
 def r01_11(rep, M, rid):
     fq = SBC + "._localize_clusters"
@@ -796,6 +854,7 @@ def run(rep, ctx):
     rep.rule("R01.11", "localisation removes a shared atom from all but exactly one of its clusters")
     rep.rule("R01.12", "index collections of new clusters are sets (duplicate-free)")
     rep.rule("R01.13", "distances and region search run on the wrapped working copy")
+    rep.rule("R01.14", "atoms outside the cell along a non-periodic direction always trigger enlargement and centring")
     with rep.guard("R01.1"):
         r01_1(rep, M, E, "R01.1")
         r01_1_escape(rep, M, E, "R01.1")
@@ -824,6 +883,9 @@ def run(rep, ctx):
         r01_12(rep, M, "R01.12")
     with rep.guard("R01.13"):
         r01_13(rep, M, "R01.13")
+    with rep.guard("R01.14"):
+        r01_14(rep, M, "R01.14")
+    rep.floor("R01.14", 2)
     rep.floor("R01.11", 2)
     rep.floor("R01.12", 2)
     rep.floor("R01.13", 2)
